@@ -40,7 +40,32 @@ type Record struct {
 
 var env *run.Env
 
+// go/types' Universe and Unsafe scopes as they were before the first build of this process
+var sharedAtStart string
+
+func sharedInvariant() (string, string) {
+	if now := run.SharedScopes(); now != sharedAtStart {
+		return "go-types-shared-scope-mutated", "a build changed go/types' process-wide Universe or Unsafe scope: " + diffNames(sharedAtStart, now)
+	}
+	return "", ""
+}
+
+func diffNames(a, b string) string {
+	have := map[string]bool{}
+	for _, n := range strings.FieldsFunc(a, func(r rune) bool { return r == ',' || r == '|' }) {
+		have[n] = true
+	}
+	var extra []string
+	for _, n := range strings.FieldsFunc(b, func(r rune) bool { return r == ',' || r == '|' }) {
+		if !have[n] {
+			extra = append(extra, n)
+		}
+	}
+	return "new names " + strings.Join(extra, ",")
+}
+
 func TestMain(m *testing.M) {
+	sharedAtStart = run.SharedScopes()
 	var err error
 	env, err = run.NewEnv(true)
 	if err != nil {
@@ -60,12 +85,15 @@ func gen(rt *rapid.T) any {
 		var p *prog.Program
 		if same && first != nil {
 			p = first
+			if t := prog.Twin(first); t != nil && rapid.Bool().Draw(rt, "twin") {
+				p = t // another revision of the same dependencies, built concurrently
+			}
 		} else {
 			p = gencommon.Program(rt, gencommon.ProgramSpec{CorpusShare: 3, Lib: 5, MaxXGo: 3, Budget: 40, MaxDepth: 3, MaxDecls: 6}, env.Paths)
 			first = p
 		}
 		t := TaskRec{Prog: p}
-		t.Front = gencommon.Front(rt, gencommon.FrontSpec{Faults: []string{"discard_ref", "abort_stmt", "abort_init", "inline_closure", "vblock", "callex_err", "bigint_op"}, MaxFaults: 2, FileAssign: false})
+		t.Front = gencommon.Front(rt, gencommon.FrontSpec{Faults: []string{"discard_ref", "abort_stmt", "abort_init", "callex_err"}, MaxFaults: 2, Constructs: []string{"vblock", "inline_closure", "bigint_op", "unit_lit", "unsafe_ref"}, FileAssign: false})
 		t.Coarse = rapid.IntRange(0, 3).Draw(rt, "coarse") != 0
 		np := rapid.IntRange(0, 4).Draw(rt, "npre")
 		for j := 0; j < np; j++ {
@@ -127,8 +155,12 @@ func sortedDiags(r *run.Result) string {
 	return strings.Join(d, "\n")
 }
 
+var saltCounter int
+
+// solo builds one task alone, under synthetic import paths of its own.
 func solo(t *TaskRec) *run.Result {
-	return env.Build(t.Prog, t.Front, nil)
+	saltCounter++
+	return env.BuildSalted(t.Prog, t.Front, nil, saltCounter)
 }
 
 var raceBuild = verifhook.RaceEnabled
@@ -157,6 +189,8 @@ func exec1(rec any) *core.Outcome {
 	if !raceBuild {
 		base = fprint.Snapshot()
 	}
+	saltCounter++
+	shared := saltCounter // the concurrent builds share their synthetic import paths
 	c := &concRun{s: baton.New(), n: len(r.Tasks)}
 	c.s.MaxSteps = 400000
 	for i := range r.Tasks {
@@ -176,7 +210,7 @@ func exec1(rec any) *core.Outcome {
 					t.Yield()
 				}
 			}
-			tr.res = env.Build(tr.rec.Prog, tr.rec.Front, hooks)
+			tr.res = env.BuildSalted(tr.rec.Prog, tr.rec.Front, hooks, shared)
 		})
 	}
 	sched := r.Sched
@@ -391,7 +425,7 @@ func simplify(rec any) []any {
 }
 
 func TestSim(t *testing.T) {
-	e := &core.Engine{Property: P, Gen: gen, NewRecord: func() any { return &Record{} }, Exec: exec1, Simplify: simplify, Deterministic: true}
+	e := &core.Engine{Property: P, Gen: gen, NewRecord: func() any { return &Record{} }, Exec: exec1, Simplify: simplify, Deterministic: true, Invariant: sharedInvariant}
 	e.Extra = func() map[string]any {
 		return map[string]any{"corpus_packages_admitted": env.Paths, "package_level_variables_fingerprinted": len(verifhook.Globals()), "race_build": raceBuild}
 	}
